@@ -161,6 +161,98 @@ fn report(case: &str, id: u64, weak: &Weak<Lib>, viol: &mut u64, n: &mut u64) {
     }
 }
 
+
+/// a context made by a foreign host: `clone_fn` hands out a *new handle* for every reference and `drop_fn` retires exactly the
+/// handle it is given (the reason `CArc` is a repr(C) triple of instance + two functions). Monitor: no handle is retired twice,
+/// nothing is cloned through a retired handle, and once every object is gone every handle ever issued has been retired.
+mod foreign {
+    use super::*;
+    pub struct Handle { id: usize }
+    pub struct Host { pub live: Vec<bool>, pub errors: Vec<String> }
+    pub static HOST: Mutex<Host> = Mutex::new(Host { live: Vec::new(), errors: Vec::new() });
+    fn new_handle(h: &mut Host) -> &'static Handle {
+        h.live.push(true);
+        // never deallocated, so that a stale handle is diagnosed instead of being undefined behaviour
+        Box::leak(Box::new(Handle { id: h.live.len() - 1 }))
+    }
+    unsafe extern "C" fn host_clone(h: Option<&'static Handle>) -> Option<&'static Handle> {
+        let mut host = HOST.lock().unwrap();
+        let h = h.expect("null handle");
+        if !host.live[h.id] { let m = format!("clone through retired handle #{}", h.id); host.errors.push(m); }
+        Some(new_handle(&mut host))
+    }
+    unsafe extern "C" fn host_drop(h: Option<&Handle>) {
+        let mut host = HOST.lock().unwrap();
+        let h = h.expect("null handle");
+        if !host.live[h.id] { let m = format!("handle #{} retired twice", h.id); host.errors.push(m); return; }
+        host.live[h.id] = false;
+    }
+    #[repr(C)]
+    struct RawArc {
+        instance: Option<&'static Handle>,
+        clone_fn: Option<unsafe extern "C" fn(Option<&'static Handle>) -> Option<&'static Handle>>,
+        drop_fn: Option<unsafe extern "C" fn(Option<&Handle>)>,
+    }
+    pub fn context() -> CArc<Handle> {
+        let raw = RawArc { instance: Some(new_handle(&mut HOST.lock().unwrap())), clone_fn: Some(host_clone), drop_fn: Some(host_drop) };
+        assert_eq!(std::mem::size_of::<RawArc>(), std::mem::size_of::<CArc<Handle>>());
+        unsafe { std::mem::transmute(raw) }
+    }
+    pub fn live() -> usize { HOST.lock().unwrap().live.iter().filter(|l| **l).count() }
+    pub fn reset() -> Vec<String> { let mut h = HOST.lock().unwrap(); h.live.clear(); std::mem::take(&mut h.errors) }
+
+    pub fn run(viol: &mut u64, n: &mut u64) {
+        macro_rules! fcase {
+            ($name:expr, $body:expr) => {{
+                reset();
+                let mut notes: Vec<String> = vec![];
+                { let ctx = context(); let f: &dyn Fn(CArc<Handle>, &mut Vec<String>) = &$body; f(ctx, &mut notes); }
+                let left = live();
+                let issued = HOST.lock().unwrap().live.len();
+                let mut errs = reset();
+                errs.extend(notes);
+                if left != 0 { errs.push(format!("{} of {} handles issued were never retired", left, issued)); }
+                *n += 1;
+                if !errs.is_empty() {
+                    println!("{{\"k\":\"violation\",\"sig\":\"C07:foreign-context-handle\",\"detail\":\"{}: {}\",\"replay\":\"{}\"}}", $name, errs.join("; ").replace('"', "'"), $name);
+                    *viol += 1;
+                }
+            }};
+        }
+        let expect = |notes: &mut Vec<String>, what: &str, want: usize| { let l = live(); if l != want { notes.push(format!("{}: {} live handles, expected {}", what, l, want)); } };
+        fcase!("handle ctx: clones of the pointer itself", |c: CArc<Handle>, notes: &mut Vec<String>| {
+            let a = c.clone(); let b = a.clone(); expect(notes, "after two clones", 3);
+            drop(a); expect(notes, "first clone dropped", 2);
+            let s = b.transpose().expect("non-empty"); let s2 = s.clone(); expect(notes, "CArcSome clone", 3);
+            drop(s); drop(c); expect(notes, "two dropped", 1); drop(s2);
+        });
+        fcase!("handle ctx: object created and dropped", |c: CArc<Handle>, notes: &mut Vec<String>| {
+            let o = trait_obj!((Imp(1), c) as Fin); let _ = o.peek(); expect(notes, "object alive", 1); drop(o);
+        });
+        fcase!("handle ctx: consuming call", |c: CArc<Handle>, _notes: &mut Vec<String>| { let o = trait_obj!((Imp(1), c) as Fin); let _ = o.fin_val(); });
+        fcase!("handle ctx: consuming call returning a wrapped child", |c: CArc<Handle>, notes: &mut Vec<String>| {
+            let o = trait_obj!((Imp(1), c) as FinW); let r = o.fin_direct(); expect(notes, "child alive, parent consumed", 1); let _ = r.other(); drop(r);
+        });
+        fcase!("handle ctx: Result-wrapped child, Ok", |c: CArc<Handle>, notes: &mut Vec<String>| {
+            let o = trait_obj!((Imp(1), c) as FinW); let r = o.fin_wrapped(false).ok().expect("Ok"); expect(notes, "child alive, parent consumed", 1); let _ = r.other(); drop(r);
+        });
+        fcase!("handle ctx: Result-wrapped child, Err", |c: CArc<Handle>, _notes: &mut Vec<String>| { let o = trait_obj!((Imp(1), c) as FinW); let _ = o.fin_wrapped_int(true); });
+        fcase!("handle ctx: lent child, parent used afterwards", |c: CArc<Handle>, notes: &mut Vec<String>| {
+            let mut o = trait_obj!((Imp(5), c) as Lender);
+            { let ch = o.lend(); expect(notes, "parent and lent child alive", 2); let _ = ch.other(); }
+            expect(notes, "lent child dropped", 1);
+            let _ = o.lender_id();
+            { let ch = o.lend(); let _ = ch.other(); }
+            expect(notes, "second lent child dropped", 1);
+            drop(o);
+        });
+        fcase!("handle ctx: group, cast, upcast", |c: CArc<Handle>, notes: &mut Vec<String>| {
+            let g = group_obj!((Imp(1), c) as FinGroup); let w = cast!(g impl Other).expect("enabled"); let _ = w.other(); expect(notes, "cast group alive", 1);
+            let g = w.upcast(); let f = into!(g impl Other).expect("enabled"); expect(notes, "final group alive", 1); f.fin_unit();
+        });
+    }
+}
+
 fn main() {
     let mut viol = 0u64;
     let mut n = 0u64;
@@ -251,6 +343,7 @@ fn main() {
     dcase!("consumed object+CArc ctx: fin_val", |d: Dep, l: Arc<Lib>| trait_obj!((d, CArc::<Lib>::from(l)) as Fin), |o: FinCtxBox<CArc<Lib>>| { let _ = o.fin_val(); });
     dcase!("consumed object+CArc ctx: fin_res Err", |d: Dep, l: Arc<Lib>| trait_obj!((d, CArc::<Lib>::from(l)) as Fin), |o: FinCtxBox<CArc<Lib>>| { let _ = o.fin_res(true); });
     dcase!("consumed group+plain ctx: fin_unit", |d: Dep, l: Arc<Lib>| group_obj!((d, PlainCtx(l)) as FinGroup), |o: FinGroupCtxBox<PlainCtx>| { o.fin_unit(); });
+    foreign::run(&mut viol, &mut n);
     println!("{{\"k\":\"sample\",\"what\":\"C07 guard case\",\"case\":\"object is the only holder of the context; fin_val(self) -> u64 is called; the payload's Drop captures a backtrace; a cglue_wrapped_* frame on it means the context died inside the consuming call\"}}");
     println!("{{\"k\":\"stat\",\"guard_cases\":{},\"guard_violations\":{},\"canary_wrapper_frame_seen\":{},\"drops_seen_by_caller_side_decoder\":{},\"drops_before_that_call\":{}}}", n, viol, canary as u64, if at_decode == u64::MAX { 0 } else { at_decode }, d0);
     println!("{{\"k\":\"done\"}}");
